@@ -565,7 +565,8 @@ def run_session(db, rep, pname, unit, script):
     main = prog.fn('main', unit)
     H = NetSession(script)
     e = Engine(db, prog, H, max_states=400000)
-    st = {'G:databytes': fs(0), 'G:bytestooverflow': fs(0), 'G:bytesleft': fs(100), 'G:flagok': fs(1), 'G:failure.len': fs(0), 'G:failure.a': fs(0), 'G:failure.s': fs(0)}
+    st = {'G:databytes': fs(0), 'G:bytestooverflow': fs(0), 'G:bytesleft': fs(100), 'G:flagok': fs(1), 'G:failure.len': fs(0), 'G:failure.a': fs(0), 'G:failure.s': fs(0),
+          'G:relayclient': fs(0), 'G:relayclientlen': fs(0)}       # the start-up values of the program's globals
     e.run(main, st)
     rep.count_states(e.states, e.transitions)
     if len(H.ends) != 1:
